@@ -31,7 +31,7 @@ def _worker(args):
         from vf.canary import apply_from_env
 
         apply_from_env(spec)
-    ctx = Ctx(prop, cfg, tier, seed, timeout_s=getattr(spec, "QUERY_TIMEOUT_S", 120.0))
+    ctx = Ctx(prop, cfg, tier, seed, timeout_s=getattr(spec, "QUERY_TIMEOUT_S", 180.0 if tier == "quick" else 900.0))
     ctx.index = idx
     t0 = time.time()
     try:
